@@ -531,7 +531,11 @@ def hist_failures(line, out):
         elif name == "select":
             a, b2, ia, ib = int(op[1]), int(op[2]), op[3] == "1", op[4] == "1"
             deadline = clock - dur(ttl)
-            if cur.res.startswith("s:") and ";r:" in cur.res:
+            well_formed = all(sa < se for sa, se, _ in prev.segs) and all(
+                prev.segs[k][1] <= prev.segs[k + 1][0] for k in range(len(prev.segs) - 1))
+            # on a list that is already out of order / overlapping (reported above as "order") the
+            # early break of selectSegments has no meaning; do not report the consequence separately
+            if well_formed and cur.res.startswith("s:") and ";r:" in cur.res:
                 sel_s, ref_s = cur.res[2:].split(";r:")
                 sel = [int(x) for x in sel_s.split("+")] if sel_s else []
                 refs = [int(x) for x in ref_s.split(",")] if ref_s else []
